@@ -3,7 +3,7 @@
 From Coq Require Import PeanoNat Lia.
 From Gv Require Import lib.Bytes lib.Json lib.Gql lib.Exec
      C01.ProofsBase C01.ProofsJoin C01.ProofsTwoStep C01.ProofsPlanAlg C01.ProofsPlanGen C01.ProofsTvStatic C01.ProofsTvDefs
-     C01.ProofsPlan2 C01.ProofsFuelSuff C01.ProofsPlan3 C01.ProofsPlan3Main C01.Examples C01.ExamplesWf C01.ExamplesAbstract.
+     C01.ProofsPlan2 C01.ProofsFuelSuff C01.ProofsNKeyDefs C01.ProofsPlan3 C01.ProofsPlan3Main C01.Examples C01.ExamplesWf C01.ExamplesAbstract.
 Open Scope N_scope.
 
 Definition bMaker : bytes := [77;97;107;101;114].
@@ -45,10 +45,10 @@ Definition tdecls : list (name * list name) := [(bProduct, [bid]); (bMaker, [bid
    real plan: root fetch on 0:            { product { name __typename id } }
               entity fetch at product on 1:        ... on Product { __typename price maker { title __typename id } }
               entity fetch at product.maker on 2:  ... on Maker { __typename rating }      (depends on the previous fetch) *)
-Definition pt_maker : ptree := PT [(0%nat, PKeep (fld btitle [])); (1%nat, PKeep (fld brating []))] [([(0%nat, [bid])], 2%nat, [bid])].
+Definition pt_maker : ptree := PT [(0%nat, PKeep (fld btitle [])); (1%nat, PKeep (fld brating []))] [([(0%nat, [(bid, [])])], 2%nat, [bid])].
 Definition pt_product : ptree :=
   PT [(0%nat, PKeep (fld bname [])); (1%nat, PKeep (fld bprice []));
-      (1%nat, PDown None bmaker [] (ShObj false) bMaker pt_maker)] [([(0%nat, [bid])], 1%nat, [bid])].
+      (1%nat, PDown None bmaker [] (ShObj false) bMaker pt_maker)] [([(0%nat, [(bid, [])])], 1%nat, [bid])].
 Definition ds3_0 : list rfield3 := [{| r3_root := 0%nat; r3_item := PDown None bproduct [] (ShObj false) bProduct pt_product |}].
 
 Example ex_tv3_accepts : tv3_static_b T0 tsubs [] [] [] 8 tdecls [] 8 ds3_0 = true.
@@ -78,12 +78,12 @@ Example ex_tv3_run :
 Proof. split; vm_compute; reflexivity. Qed.
 
 (* a tree whose nested fetch asks the wrong subgraph is rejected *)
-Definition pt_maker_bad : ptree := PT [(0%nat, PKeep (fld btitle [])); (1%nat, PKeep (fld brating []))] [([(0%nat, [bid])], 1%nat, [bid])].
+Definition pt_maker_bad : ptree := PT [(0%nat, PKeep (fld btitle [])); (1%nat, PKeep (fld brating []))] [([(0%nat, [(bid, [])])], 1%nat, [bid])].
 Definition ds3_bad : list rfield3 :=
   [{| r3_root := 0%nat;
       r3_item := PDown None bproduct [] (ShObj false) bProduct
                        (PT [(0%nat, PKeep (fld bname [])); (1%nat, PKeep (fld bprice []));
-                            (1%nat, PDown None bmaker [] (ShObj false) bMaker pt_maker_bad)] [([(0%nat, [bid])], 1%nat, [bid])]) |}].
+                            (1%nat, PDown None bmaker [] (ShObj false) bMaker pt_maker_bad)] [([(0%nat, [(bid, [])])], 1%nat, [bid])]) |}].
 Example ex_tv3_rejects : tv3_static_b T0 tsubs [] [] [] 8 tdecls [] 8 ds3_bad = false.
 Proof. vm_compute. reflexivity. Qed.
 
@@ -109,7 +109,7 @@ Definition rdecls3 : list rdecl := [(bProduct, bshipping, [bprice])].
                                                                                        ... on Product { __typename shipping } *)
 Definition pt_req : ptree :=
   PT [(0%nat, PKeep (fld bname [])); (2%nat, PKeep (fld bshipping []))]
-     [([(0%nat, [bid])], 1%nat, [bid]); ([(1%nat, [bprice]); (0%nat, [bid])], 2%nat, [bprice; bid])].
+     [([(0%nat, [(bid, [])])], 1%nat, [bid]); ([(1%nat, [(bprice, [])]); (0%nat, [(bid, [])])], 2%nat, [bprice; bid])].
 Definition ds3_req : list rfield3 :=
   [{| r3_root := 3%nat; r3_item := PKeep (fld s_typename []) |};
    {| r3_root := 0%nat; r3_item := PDown None bproduct [] (ShObj false) bProduct pt_req |}].
@@ -134,7 +134,7 @@ Definition ds3_req_bad : list rfield3 :=
   [{| r3_root := 0%nat;
       r3_item := PDown None bproduct [] (ShObj false) bProduct
                        (PT [(0%nat, PKeep (fld bname [])); (2%nat, PKeep (fld bshipping []))]
-                           [([(0%nat, [bid])], 1%nat, [bid]); ([(0%nat, [bid])], 2%nat, [bprice; bid])]) |}].
+                           [([(0%nat, [(bid, [])])], 1%nat, [bid]); ([(0%nat, [(bid, [])])], 2%nat, [bprice; bid])]) |}].
 Example ex_tv3_req_rejects : tv3_static_b S0 subs3 [] [] [] 8 decls0 rdecls3 8 ds3_req_bad = false.
 Proof. vm_compute. reflexivity. Qed.
 (* a root field other than __typename "resolved by the gateway itself": rejected *)
@@ -156,8 +156,8 @@ Definition declsA : list (name * list name) := [(bA, [bid]); (bB, [bid])].
    real plan: root fetch on 0:  { node { __typename ... on A { a1 __typename id } ... on B { __typename id } } }
               entity fetch at node on 1, for A:  ... on A { __typename a2 }        for B:  ... on B { __typename b1 } *)
 Definition cselN : list selection := [SInline (Some bA) [] [fld ba1 []; fld ba2 []]; SInline (Some bB) [] [fld bb1f []]].
-Definition ptA : ptree := PT [(0%nat, PKeep (fld ba1 [])); (1%nat, PKeep (fld ba2 []))] [([(0%nat, [bid])], 1%nat, [bid])].
-Definition ptB : ptree := PT [(1%nat, PKeep (fld bb1f []))] [([(0%nat, [bid])], 1%nat, [bid])].
+Definition ptA : ptree := PT [(0%nat, PKeep (fld ba1 [])); (1%nat, PKeep (fld ba2 []))] [([(0%nat, [(bid, [])])], 1%nat, [bid])].
+Definition ptB : ptree := PT [(1%nat, PKeep (fld bb1f []))] [([(0%nat, [(bid, [])])], 1%nat, [bid])].
 Definition rselN : list selection := [SInline (Some bA) [] (pt_proj ptA); SInline (Some bB) [] (pt_proj ptB)].
 Definition ds4_0 : list rfield3 :=
   [{| r3_root := 0%nat; r3_item := PAbs None bnode [] (ShObj false) bNode cselN rselN [(bA, false, ptA); (bB, false, ptB)] |}].
@@ -218,4 +218,70 @@ Example tv4_sound_applies : forall F, (ds_need SA0 ds4_0 <= F)%nat ->
   sres_weq (gateway3 (UA bA bka) SA0 subsA [] [] [] (rootN bA bka) F F true 8 ds4_0) (mono_client3 (UA bA bka) SA0 [] [] [] (rootN bA bka) F ds4_0).
 Proof.
   intros F HF. apply (tv4_sound SA0 subsA [] [] 8 declsA [] true 8 ds4_0 ex_tv4_accepts (UA bA bka) (rootN bA bka) ex_tv4_contract_A eq_refl F HF).
+Qed.
+
+(* ---- a key with one level of nesting:  Product @key(fields: "id nk { code }")  ---- *)
+Definition bnk : bytes := [110;107].
+Definition bcode : bytes := [99;111;100;101].
+Definition bc1 : bytes := [99;49].
+(* supergraph:  Query { product: Product }  Product { id: ID! nk: Maker! name price }  Maker { code: ID! } *)
+Definition N0 : schema :=
+  mk_schema [objt bQuery [fdef bproduct (TNamed bProduct)];
+             objt bProduct [fdef bid (TNonNull (TNamed bID)); fdef bnk (TNonNull (TNamed bMaker)); fdef bname (TNamed bString); fdef bprice (TNamed bInt)];
+             objt bMaker [fdef bcode (TNonNull (TNamed bID))]].
+Definition NA : schema :=
+  mk_schema [objt bQuery [fdef bproduct (TNamed bProduct)];
+             objt bProduct [fdef bid (TNonNull (TNamed bID)); fdef bnk (TNonNull (TNamed bMaker)); fdef bname (TNamed bString)];
+             objt bMaker [fdef bcode (TNonNull (TNamed bID))]].
+Definition NB : schema :=
+  mk_schema [objt bQuery [];
+             objt bProduct [fdef bid (TNonNull (TNamed bID)); fdef bnk (TNonNull (TNamed bMaker)); fdef bprice (TNamed bInt)];
+             objt bMaker [fdef bcode (TNonNull (TNamed bID))]].
+Definition nsubs : list schema := [NA; NB].
+Definition n_root : entity := {| en_type := bQuery; en_key := []; en_fields := [(bproduct, FRef bProduct bp1)] |}.
+Definition n_p1 : entity :=
+  {| en_type := bProduct; en_key := bp1;
+     en_fields := [(bid, FSc (JStr bp1)); (bnk, FRef bMaker bm1); (bname, FSc (JStr bChair)); (bprice, FSc (JNum b10))] |}.
+Definition n_p2 : entity :=   (* the same id, another maker: only the nested key tells them apart *)
+  {| en_type := bProduct; en_key := bp2;
+     en_fields := [(bid, FSc (JStr bp1)); (bnk, FRef bMaker bc1); (bname, FSc (JStr bTable)); (bprice, FSc (JNum b20))] |}.
+Definition n_m1 : entity := {| en_type := bMaker; en_key := bm1; en_fields := [(bcode, FSc (JStr bm1))] |}.
+Definition n_m2 : entity := {| en_type := bMaker; en_key := bc1; en_fields := [(bcode, FSc (JStr bc1))] |}.
+Definition NU : universe := [n_root; n_p2; n_p1; n_m1; n_m2].
+Definition ndecls5 : list (name * (list name * nkspec)) := [(bProduct, ([bid], [(bnk, [bcode])]))].
+
+(* client:  { product { name price } }
+   real plan: root fetch on 0:  { product { name __typename id nk { code } } }
+              entity fetch on 1 with the representation {__typename, id, nk: {code}}:  ... on Product { __typename price } *)
+Definition pt_nk : ptree :=
+  PT [(0%nat, PKeep (fld bname [])); (1%nat, PKeep (fld bprice []))] [([(0%nat, [(bid, []); (bnk, [bcode])])], 1%nat, [bid; bnk])].
+Definition ds5_0 : list rfield3 := [{| r3_root := 0%nat; r3_item := PDown None bproduct [] (ShObj false) bProduct pt_nk |}].
+
+Example ex_tv5_accepts : tv5_static_b N0 nsubs [] [] [] 8 [] [] ndecls5 8 ds5_0 = true.
+Proof. vm_compute. reflexivity. Qed.
+Example ex_tv5_contract : univ5_contract_b N0 nsubs [] [] ndecls5 NU = true.
+Proof. vm_compute. reflexivity. Qed.
+Example ex_tv5_requests :
+  model_requests3s 2 [] [] true ds5_0 =
+  [MRoot3 0 (query_doc [] [fld bproduct ([fld bname []] ++ key_sels [bid] ++ [fld bnk [fld bcode []]])] []);
+   MEntity3 [bproduct] 1 (entities_doc [rep_vd] bProduct [tn_sel; fld bprice []] []) [s_typename; bid; bnk]].
+Proof. vm_compute. reflexivity. Qed.
+Example ex_tv5_run :
+  gateway3 NU N0 nsubs [] [] [] n_root 200 200 true 8 ds5_0 =
+  (Some [(bproduct, JObj [(bname, JStr bChair); (bprice, JNum b10)])], []) /\
+  mono_client3 NU N0 [] [] [] n_root 200 ds5_0 = (Some [(bproduct, JObj [(bname, JStr bChair); (bprice, JNum b10)])], []).
+Proof. split; vm_compute; reflexivity. Qed.
+(* the leaf part alone does not identify the product in this universe: a flat key [id] is not consistent *)
+Example ex_tv5_flat_key_inconsistent : key_consistent [(bProduct, [bid])] NU = false.
+Proof. vm_compute. reflexivity. Qed.
+(* the nested field missing from the representation: rejected *)
+Example ex_tv5_rejects :
+  tv5_static_b N0 nsubs [] [] [] 8 [] [] ndecls5 8
+    [{| r3_root := 0%nat; r3_item := PDown None bproduct [] (ShObj false) bProduct
+          (PT [(0%nat, PKeep (fld bname [])); (1%nat, PKeep (fld bprice []))] [([(0%nat, [(bid, [])])], 1%nat, [bid])]) |}] = false.
+Proof. vm_compute. reflexivity. Qed.
+Example tv5_sound_applies : forall F, (ds_need N0 ds5_0 <= F)%nat ->
+  sres_weq (gateway3 NU N0 nsubs [] [] [] n_root F F true 8 ds5_0) (mono_client3 NU N0 [] [] [] n_root F ds5_0).
+Proof.
+  intros F HF. apply (tv5_sound N0 nsubs [] [] 8 [] [] true ndecls5 8 ds5_0 ex_tv5_accepts NU n_root ex_tv5_contract eq_refl F HF).
 Qed.
